@@ -46,7 +46,7 @@ Definition touches (o : op) (q : path) : Prop :=
   match o with
   | Unlink p | CreateExcl p | Write p _ => q = p
   | Rename s d => q = s \/ q = d
-  | Fsync _ | Close _ | Verify _ _ => False
+  | Fsync _ | Close _ | VerifyJoin _ _ => False
   end.
 
 Lemma step_frame f o f' q : step f o = Some f' -> ~ touches o q -> f' q = f q.
@@ -57,7 +57,7 @@ Proof.
   - destruct (f p); [|discriminate]. injection H as <-. apply upd_other. exact N.
   - injection H as <-. reflexivity.
   - injection H as <-. reflexivity.
-  - destruct (f p); [|discriminate]. destruct (verify_ok b crc); [|discriminate]. injection H as <-. reflexivity.
+  - destruct (join_fail (verify_results f ps crc)); [discriminate|]. injection H as <-. reflexivity.
   - destruct (f src); [|discriminate]. injection H as <-.
     rewrite upd_other by (intros ->; apply N; left; reflexivity).
     apply upd_other. intros ->; apply N; right; reflexivity.
@@ -137,11 +137,11 @@ Proof.
   - intros q Hq. rewrite !upd_other by exact Hq. reflexivity.
 Qed.
 
-Lemma flush_local ch : local_phase (fun i => [Write (Tmp i) ch]) (fun _ v => v <> None)
-                                   (fun _ v => match v with Some d => Some (d ++ ch) | None => None end).
+Lemma flush_local (ch : flush) : local_phase (fun i => [Write (Tmp i) (ch i)]) (fun _ v => v <> None)
+                                   (fun i v => match v with Some d => Some (d ++ ch i) | None => None end).
 Proof.
   intros i f Hv. destruct (f (Tmp i)) as [d|] eqn:E; [|congruence].
-  exists (upd f (Tmp i) (Some (d ++ ch))). split; [|split].
+  exists (upd f (Tmp i) (Some (d ++ ch i))). split; [|split].
   - cbn [exec step]. rewrite E. reflexivity.
   - apply upd_same.
   - intros q Hq. apply upd_other, Hq.
@@ -153,29 +153,22 @@ Proof. intros i f _. exists f. repeat split. Qed.
 Lemma close_local : local_phase (fun i => [Close (Tmp i)]) (fun _ _ => True) (fun _ v => v).
 Proof. intros i f _. exists f. repeat split. Qed.
 
-Lemma verify_local new crc : verify_ok new crc = true ->
-  local_phase (fun i => [Verify (Tmp i) crc]) (fun _ v => v = Some new) (fun _ v => v).
-Proof.
-  intros V i f Hv. exists f. split; [|split; [reflexivity|reflexivity]].
-  cbn [exec step]. rewrite Hv, V. reflexivity.
-Qed.
-
 (* ------------------------------------------------------------------------------------------------ *)
 (** * The writes *)
 
-Lemma write_exec cs : NoDup cs -> forall chunks f d0, (forall i, In i cs -> f (Tmp i) = Some d0) ->
-  exists f', exec f (write_ops cs chunks) = Some f' /\ (forall i, In i cs -> f' (Tmp i) = Some (d0 ++ concat chunks)) /\
+Lemma write_exec cs : NoDup cs -> forall (chunks : list flush) f (d0 : nat -> bstr), (forall i, In i cs -> f (Tmp i) = Some (d0 i)) ->
+  exists f', exec f (write_ops cs chunks) = Some f' /\ (forall i, In i cs -> f' (Tmp i) = Some (d0 i ++ landed chunks i)) /\
              (forall q, (forall i, In i cs -> q <> Tmp i) -> f' q = f q).
 Proof.
   intros ND. induction chunks as [|ch chunks IH]; intros f d0 H0.
-  - exists f. split; [reflexivity|]. split; [|reflexivity]. intros i Hi. cbn [concat]. rewrite app_nil_r. apply H0, Hi.
+  - exists f. split; [reflexivity|]. split; [|reflexivity]. intros i Hi. unfold landed. cbn [map concat]. rewrite app_nil_r. apply H0, Hi.
   - destruct (phase_exec _ _ _ (flush_local ch) cs f ND) as (f1 & E1 & V1 & Fr1).
     { intros i Hi. rewrite (H0 i Hi). discriminate. }
-    destruct (IH f1 (d0 ++ ch)) as (f2 & E2 & V2 & Fr2).
+    destruct (IH f1 (fun i => d0 i ++ ch i)) as (f2 & E2 & V2 & Fr2).
     { intros i Hi. rewrite (V1 i Hi), (H0 i Hi). reflexivity. }
     exists f2. split; [|split].
     + unfold write_ops. cbn [flat_map]. rewrite exec_app. unfold flush_ops at 1. rewrite E1. exact E2.
-    + intros i Hi. rewrite (V2 i Hi). cbn [concat]. rewrite app_assoc. reflexivity.
+    + intros i Hi. rewrite (V2 i Hi). unfold landed. cbn [map concat]. rewrite app_assoc. reflexivity.
     + intros q Hq. rewrite (Fr2 q Hq). apply Fr1, Hq.
 Qed.
 
@@ -199,7 +192,7 @@ Proof.
   - apply flat_map_Forall. intros ch _. apply flat_map_Forall. intros i Hi. repeat constructor; intros q T; cbn [touches] in T; eauto.
   - apply flat_map_Forall. intros i Hi. repeat constructor; intros q T; cbn [touches] in T; contradiction.
   - apply flat_map_Forall. intros i Hi. repeat constructor; intros q T; cbn [touches] in T; contradiction.
-  - apply flat_map_Forall. intros i Hi. repeat constructor; intros q T; cbn [touches] in T; contradiction.
+  - repeat constructor. intros q T. cbn [touches] in T. contradiction.
 Qed.
 
 Lemma tmp_in_not ops cs q : (forall i, In i cs -> q <> Tmp i) -> Forall (tmp_in cs) ops -> Forall (fun o => ~ touches o q) ops.
@@ -216,10 +209,10 @@ Proof.
   - apply IH. intros j Hj. apply H. right. exact Hj.
 Qed.
 
-Lemma rename_crash new : forall l f f', NoDup l -> (forall i, In i l -> f (Tmp i) = Some new) ->
+Lemma rename_crash (new : nat -> bstr) : forall l f f', NoDup l -> (forall i, In i l -> f (Tmp i) = Some (new i)) ->
   crash f (rename_ops l) f' ->
-  exists l1 l2, l = l1 ++ l2 /\ (forall i, In i l1 -> f' (Content i) = Some new /\ f' (Tmp i) = None) /\
-                (forall i, In i l2 -> f' (Content i) = f (Content i) /\ f' (Tmp i) = Some new).
+  exists l1 l2, l = l1 ++ l2 /\ (forall i, In i l1 -> f' (Content i) = Some (new i) /\ f' (Tmp i) = None) /\
+                (forall i, In i l2 -> f' (Content i) = f (Content i) /\ f' (Tmp i) = Some (new i)).
 Proof.
   induction l as [|i l IH]; intros f f' ND Ht C.
   - exists [], []. split; [reflexivity|]. split; intros i [].
@@ -228,8 +221,8 @@ Proof.
     inversion C as [| |? ? ? f1 ? Hs C1]; subst.
     + exists [], (i :: l). split; [reflexivity|]. split; [intros j []|]. intros j Hj. split; [reflexivity|apply Ht, Hj].
     + cbn [step] in Hs. rewrite (Ht i (or_introl eq_refl)) in Hs. injection Hs as <-.
-      set (f1 := upd (upd f (Content i) (Some new)) (Tmp i) None) in *.
-      assert (Ht1 : forall j, In j l -> f1 (Tmp j) = Some new).
+      set (f1 := upd (upd f (Content i) (Some (new i))) (Tmp i) None) in *.
+      assert (Ht1 : forall j, In j l -> f1 (Tmp j) = Some (new j)).
       { intros j Hj. unfold f1. rewrite upd_other by (intros K; injection K as ->; exact (Hni Hj)).
         rewrite upd_other by discriminate. apply Ht. right. exact Hj. }
       destruct (IH f1 f' ND' Ht1 C1) as (l1 & l2 & -> & Hn & Ho).
@@ -245,15 +238,15 @@ Proof.
         intros K; injection K as ->. apply Hni. apply in_or_app. right. exact Hj.
 Qed.
 
-Lemma rename_exec new : forall l f, NoDup l -> (forall i, In i l -> f (Tmp i) = Some new) ->
-  exists f', exec f (rename_ops l) = Some f' /\ (forall i, In i l -> f' (Content i) = Some new /\ f' (Tmp i) = None) /\
+Lemma rename_exec (new : nat -> bstr) : forall l f, NoDup l -> (forall i, In i l -> f (Tmp i) = Some (new i)) ->
+  exists f', exec f (rename_ops l) = Some f' /\ (forall i, In i l -> f' (Content i) = Some (new i) /\ f' (Tmp i) = None) /\
              (forall q, (forall i, In i l -> q <> Tmp i /\ q <> Content i) -> f' q = f q).
 Proof.
   induction l as [|i l IH]; intros f ND Ht.
   - exists f. split; [reflexivity|]. split; [intros i []|reflexivity].
   - inversion ND as [|? ? Hni ND']; subst.
-    set (f1 := upd (upd f (Content i) (Some new)) (Tmp i) None).
-    assert (Ht1 : forall j, In j l -> f1 (Tmp j) = Some new).
+    set (f1 := upd (upd f (Content i) (Some (new i))) (Tmp i) None).
+    assert (Ht1 : forall j, In j l -> f1 (Tmp j) = Some (new j)).
     { intros j Hj. unfold f1. rewrite upd_other by (intros K; injection K as ->; exact (Hni Hj)).
       rewrite upd_other by discriminate. apply Ht. right. exact Hj. }
     destruct (IH f1 ND' Ht1) as (f2 & E2 & V2 & Fr2).
@@ -270,39 +263,84 @@ Proof.
 Qed.
 
 (* ------------------------------------------------------------------------------------------------ *)
-(** * Everything before the renames, run to the end *)
+(** * The join of the verification threads *)
 
-Lemma before_rename_exec cs chunks crc f0 : NoDup cs -> verify_ok (concat chunks) crc = true ->
-  exists f3, exec f0 (before_rename_ops cs chunks crc) = Some f3 /\ (forall i, In i cs -> f3 (Tmp i) = Some (concat chunks)) /\
-             (forall q, (forall i, In i cs -> q <> Tmp i) -> f3 q = f0 q).
+Lemma join_fail_false_iff rs : join_fail rs = false <-> forall b, In b rs -> b = true.
 Proof.
-  intros ND V. unfold before_rename_ops.
-  destruct (phase_exec _ _ _ prepare_local cs f0 ND (fun _ _ => I)) as (f1 & E1 & V1 & Fr1).
-  destruct (write_exec cs ND chunks f1 [] V1) as (f2 & E2 & V2 & Fr2). cbn [app] in V2.
-  destruct (phase_exec _ _ _ fsync_local cs f2 ND (fun _ _ => I)) as (f3 & E3 & V3 & Fr3).
-  destruct (phase_exec _ _ _ close_local cs f3 ND (fun _ _ => I)) as (f4 & E4 & V4 & Fr4).
-  destruct (phase_exec _ _ _ (verify_local _ _ V) cs f4 ND) as (f5 & E5 & V5 & Fr5).
-  { intros i Hi. rewrite (V4 i Hi), (V3 i Hi). apply V2, Hi. }
-  exists f5. split; [|split].
-  - unfold prepare_ops, fsync_ops, close_ops, verify_ops.
-    rewrite exec_app, E1. rewrite exec_app, E2. rewrite exec_app, E3. rewrite exec_app, E4. exact E5.
-  - intros i Hi. rewrite (V5 i Hi), (V4 i Hi), (V3 i Hi). apply V2, Hi.
-  - intros q Hq. rewrite (Fr5 q Hq), (Fr4 q Hq), (Fr3 q Hq), (Fr2 q Hq). apply Fr1, Hq.
+  unfold join_fail. induction rs as [|r rs IH]; cbn [existsb].
+  - split; [intros _ b []|reflexivity].
+  - rewrite orb_false_iff, IH. split.
+    + intros [Hr H] b [<-|Hb]; [destruct r; [reflexivity|discriminate]|apply H, Hb].
+    + intros H. split; [rewrite (H r (or_introl eq_refl)); reflexivity|intros b Hb; apply H; right; exact Hb].
 Qed.
 
-(* if the verification fails the list stops before the first rename *)
-Lemma verify_fail_exec cs chunks crc f0 : NoDup cs -> cs <> [] -> verify_ok (concat chunks) crc = false ->
-  exec f0 (before_rename_ops cs chunks crc) = None.
+(* all temporaries hold what landed in them: the join fails iff the verification of SOME copy fails *)
+Lemma join_all_ok cs crc (new : nat -> bstr) f : (forall i, In i cs -> f (Tmp i) = Some (new i)) ->
+  (join_fail (verify_results f (map Tmp cs) crc) = false <-> forall i, In i cs -> verify_ok (new i) crc = true).
 Proof.
-  intros ND NE V. unfold before_rename_ops.
+  intros Ht. rewrite join_fail_false_iff. unfold verify_results. rewrite map_map. split.
+  - intros H i Hi. specialize (H (match f (Tmp i) with Some d => verify_ok d crc | None => false end)).
+    rewrite (Ht i Hi) in H. apply H. apply in_map_iff. exists i. rewrite (Ht i Hi). split; [reflexivity|exact Hi].
+  - intros H b Hb. apply in_map_iff in Hb. destruct Hb as (i & <- & Hi). rewrite (Ht i Hi). apply H, Hi.
+Qed.
+
+(* the loop that keeps only the last result lets a damaged first copy through; the model's join does not *)
+Example mutant_join_misses : join_fail [false; true] = true /\ join_fail_last [false; true] = false.
+Proof. split; reflexivity. Qed.
+
+(* ------------------------------------------------------------------------------------------------ *)
+(** * Everything before the renames, run to the end *)
+
+Definition all_verified (cs : list nat) (chunks : list flush) (crc : N) : Prop :=
+  forall i, In i cs -> verify_ok (landed chunks i) crc = true.
+
+(* write, fsync, close: the temporaries hold exactly what landed in them *)
+Lemma before_verify_exec cs chunks f0 : NoDup cs ->
+  exists f4, exec f0 (prepare_ops cs ++ write_ops cs chunks ++ fsync_ops cs ++ close_ops cs) = Some f4 /\
+             (forall i, In i cs -> f4 (Tmp i) = Some (landed chunks i)) /\
+             (forall q, (forall i, In i cs -> q <> Tmp i) -> f4 q = f0 q).
+Proof.
+  intros ND.
   destruct (phase_exec _ _ _ prepare_local cs f0 ND (fun _ _ => I)) as (f1 & E1 & V1 & Fr1).
-  destruct (write_exec cs ND chunks f1 [] V1) as (f2 & E2 & V2 & Fr2). cbn [app] in V2.
+  destruct (write_exec cs ND chunks f1 (fun _ => []) V1) as (f2 & E2 & V2 & Fr2). cbn [app] in V2.
   destruct (phase_exec _ _ _ fsync_local cs f2 ND (fun _ _ => I)) as (f3 & E3 & V3 & Fr3).
   destruct (phase_exec _ _ _ close_local cs f3 ND (fun _ _ => I)) as (f4 & E4 & V4 & Fr4).
-  unfold prepare_ops, fsync_ops, close_ops.
-  rewrite exec_app, E1. rewrite exec_app, E2. rewrite exec_app, E3. rewrite exec_app, E4.
-  destruct cs as [|i cs]; [congruence|]. unfold verify_ops. cbn [flat_map app exec step].
-  rewrite (V4 i (or_introl eq_refl)), (V3 i (or_introl eq_refl)), (V2 i (or_introl eq_refl)), V. reflexivity.
+  exists f4. split; [|split].
+  - unfold prepare_ops, fsync_ops, close_ops. rewrite exec_app, E1. rewrite exec_app, E2. rewrite exec_app, E3. exact E4.
+  - intros i Hi. rewrite (V4 i Hi), (V3 i Hi). apply V2, Hi.
+  - intros q Hq. rewrite (Fr4 q Hq), (Fr3 q Hq), (Fr2 q Hq). apply Fr1, Hq.
+Qed.
+
+Lemma before_rename_split cs chunks crc :
+  before_rename_ops cs chunks crc = (prepare_ops cs ++ write_ops cs chunks ++ fsync_ops cs ++ close_ops cs) ++ verify_ops cs crc.
+Proof. unfold before_rename_ops. rewrite <- !app_assoc. reflexivity. Qed.
+
+Lemma before_rename_exec cs chunks crc f0 : NoDup cs -> all_verified cs chunks crc ->
+  exists f3, exec f0 (before_rename_ops cs chunks crc) = Some f3 /\ (forall i, In i cs -> f3 (Tmp i) = Some (landed chunks i)) /\
+             (forall q, (forall i, In i cs -> q <> Tmp i) -> f3 q = f0 q).
+Proof.
+  intros ND V. destruct (before_verify_exec cs chunks f0 ND) as (f4 & E4 & V4 & Fr4).
+  exists f4. split; [|split; assumption].
+  rewrite before_rename_split, exec_app, E4. unfold verify_ops. cbn [exec step].
+  rewrite (proj2 (join_all_ok cs crc (landed chunks) f4 V4) V). reflexivity.
+Qed.
+
+(* if the verification of ANY copy fails the list stops before the first rename *)
+Lemma verify_fail_exec cs chunks crc f0 j : NoDup cs -> In j cs -> verify_ok (landed chunks j) crc = false ->
+  exec f0 (before_rename_ops cs chunks crc) = None.
+Proof.
+  intros ND Hj V. destruct (before_verify_exec cs chunks f0 ND) as (f4 & E4 & V4 & Fr4).
+  rewrite before_rename_split, exec_app, E4. unfold verify_ops. cbn [exec step].
+  destruct (join_fail (verify_results f4 (map Tmp cs) crc)) eqn:J; [reflexivity|].
+  rewrite (proj1 (join_all_ok cs crc (landed chunks) f4 V4) J j Hj) in V. discriminate.
+Qed.
+
+(* conversely: if the list gets past the join, every copy verified *)
+Lemma exec_before_rename_verified cs chunks crc f0 f3 : NoDup cs ->
+  exec f0 (before_rename_ops cs chunks crc) = Some f3 -> all_verified cs chunks crc.
+Proof.
+  intros ND E j Hj. destruct (verify_ok (landed chunks j) crc) eqn:V; [reflexivity|].
+  rewrite (verify_fail_exec cs chunks crc f0 j ND Hj V) in E. discriminate.
 Qed.
 
 (* ------------------------------------------------------------------------------------------------ *)
@@ -310,30 +348,30 @@ Qed.
 
 Theorem save_atomic cs chunks crc f0 f' : NoDup cs -> crash f0 (save_ops cs chunks crc) f' ->
   exists cs1 cs2, cs = cs1 ++ cs2 /\
-    (forall i, In i cs1 -> f' (Content i) = Some (concat chunks)) /\
-    (forall i, In i cs2 -> f' (Content i) = f0 (Content i)).
+    (forall i, In i cs1 -> f' (Content i) = Some (landed chunks i)) /\
+    (forall i, In i cs2 -> f' (Content i) = f0 (Content i)) /\
+    (cs1 <> [] -> all_verified cs chunks crc).
 Proof.
   intros ND C. unfold save_ops in C.
   destruct (crash_app _ _ _ _ C) as [C1|[f3 [E3 C2]]].
-  - exists [], cs. split; [reflexivity|]. split; [intros i []|]. intros i _.
+  - exists [], cs. split; [reflexivity|]. split; [intros i []|]. split; [|congruence]. intros i _.
     apply (crash_frame _ _ _ _ C1). apply (tmp_in_not _ cs); [intros k _; discriminate|apply before_rename_tmp_in].
-  - destruct (verify_ok (concat chunks) crc) eqn:V.
-    + destruct (before_rename_exec cs chunks crc f0 ND V) as (f3' & E3' & V3 & Fr3).
-      rewrite E3 in E3'. injection E3' as <-.
-      destruct (rename_crash (concat chunks) cs f3 f' ND V3 C2) as (l1 & l2 & -> & Hn & Ho).
-      exists l1, l2. split; [reflexivity|]. split.
-      * intros i Hi. apply Hn, Hi.
-      * intros i Hi. destruct (Ho i Hi) as [A _]. rewrite A. apply Fr3. intros k _. discriminate.
-    + destruct cs as [|i cs].
-      * exists [], []. split; [reflexivity|]. split; intros i [].
-      * rewrite (verify_fail_exec (i :: cs) chunks crc f0 ND ltac:(discriminate) V) in E3. discriminate.
+  - pose proof (exec_before_rename_verified cs chunks crc f0 f3 ND E3) as V.
+    destruct (before_rename_exec cs chunks crc f0 ND V) as (f3' & E3' & V3 & Fr3).
+    rewrite E3 in E3'. injection E3' as <-.
+    destruct (rename_crash (landed chunks) cs f3 f' ND V3 C2) as (l1 & l2 & -> & Hn & Ho).
+    exists l1, l2. split; [reflexivity|]. split; [|split].
+    + intros i Hi. apply Hn, Hi.
+    + intros i Hi. destruct (Ho i Hi) as [A _]. rewrite A. apply Fr3. intros k _. discriminate.
+    + intros _. exact V.
 Qed.
 
 Corollary save_atomic_each cs chunks crc f0 f' i : NoDup cs -> crash f0 (save_ops cs chunks crc) f' -> In i cs ->
-  f' (Content i) = f0 (Content i) \/ f' (Content i) = Some (concat chunks).
+  f' (Content i) = f0 (Content i) \/ (f' (Content i) = Some (landed chunks i) /\ all_verified cs chunks crc).
 Proof.
-  intros ND C Hi. destruct (save_atomic cs chunks crc f0 f' ND C) as (l1 & l2 & -> & Hn & Ho).
-  apply in_app_or in Hi. destruct Hi as [Hi|Hi]; [right; apply Hn, Hi|left; apply Ho, Hi].
+  intros ND C Hi. destruct (save_atomic cs chunks crc f0 f' ND C) as (l1 & l2 & -> & Hn & Ho & Hv).
+  apply in_app_or in Hi. destruct Hi as [Hi|Hi]; [right|left; apply Ho, Hi].
+  split; [apply Hn, Hi|]. apply Hv. intros ->. exact Hi.
 Qed.
 
 Theorem save_frame cs chunks crc f0 f' : crash f0 (save_ops cs chunks crc) f' ->
@@ -349,28 +387,36 @@ Proof.
   - intros i Hi. split; apply G; intros k Hk; split; try discriminate; intros K; injection K as ->; exact (Hi Hk).
 Qed.
 
-(* re-read and verified BEFORE any copy is replaced: when the verification fails, no crash state has a replaced copy,
-   and the complete run stops with an error *)
-Theorem verify_guards_rename cs chunks crc f0 : NoDup cs -> cs <> [] -> verify_ok (concat chunks) crc = false ->
+(* re-read and verified BEFORE any copy is replaced, and EVERY copy's result counts: when the verification of some copy j
+   fails -- whichever j, first, middle or last -- no crash state has a replaced copy and the complete run stops with an error *)
+Theorem verify_all_guard cs chunks crc f0 j : NoDup cs -> In j cs -> verify_ok (landed chunks j) crc = false ->
   exec f0 (save_ops cs chunks crc) = None /\
   forall f', crash f0 (save_ops cs chunks crc) f' -> forall i, f' (Content i) = f0 (Content i).
 Proof.
-  intros ND NE V. split.
-  - unfold save_ops. rewrite exec_app, (verify_fail_exec cs chunks crc f0 ND NE V). reflexivity.
+  intros ND Hj V. split.
+  - unfold save_ops. rewrite exec_app, (verify_fail_exec cs chunks crc f0 j ND Hj V). reflexivity.
   - intros f' C i. unfold save_ops in C. destruct (crash_app _ _ _ _ C) as [C1|[f3 [E3 _]]].
     + apply (crash_frame _ _ _ _ C1). apply (tmp_in_not _ cs); [intros k _; discriminate|apply before_rename_tmp_in].
-    + rewrite (verify_fail_exec cs chunks crc f0 ND NE V) in E3. discriminate.
+    + rewrite (verify_fail_exec cs chunks crc f0 j ND Hj V) in E3. discriminate.
+Qed.
+
+(* the same read the other way: a copy that changed proves that the verification of every copy had succeeded *)
+Corollary renamed_implies_all_verified cs chunks crc f0 f' i : NoDup cs -> crash f0 (save_ops cs chunks crc) f' ->
+  f' (Content i) <> f0 (Content i) -> all_verified cs chunks crc.
+Proof.
+  intros ND C Hne j Hj. destruct (verify_ok (landed chunks j) crc) eqn:V; [reflexivity|exfalso].
+  exact (Hne (proj2 (verify_all_guard cs chunks crc f0 j ND Hj V) f' C i)).
 Qed.
 
 (* the whole list runs from ANY file system -- stale temporaries of any content included -- and ends with all copies new *)
-Theorem save_complete cs chunks crc f0 : NoDup cs -> verify_ok (concat chunks) crc = true ->
+Theorem save_complete cs chunks crc f0 : NoDup cs -> all_verified cs chunks crc ->
   exists f1, exec f0 (save_ops cs chunks crc) = Some f1 /\
-    (forall i, In i cs -> f1 (Content i) = Some (concat chunks) /\ f1 (Tmp i) = None) /\
+    (forall i, In i cs -> f1 (Content i) = Some (landed chunks i) /\ f1 (Tmp i) = None) /\
     (forall q, (forall i, In i cs -> q <> Tmp i /\ q <> Content i) -> f1 q = f0 q).
 Proof.
   intros ND V.
   destruct (before_rename_exec cs chunks crc f0 ND V) as (f3 & E3 & V3 & Fr3).
-  destruct (rename_exec (concat chunks) cs f3 ND V3) as (f4 & E4 & V4 & Fr4).
+  destruct (rename_exec (landed chunks) cs f3 ND V3) as (f4 & E4 & V4 & Fr4).
   exists f4. split; [|split].
   - unfold save_ops. rewrite exec_app, E3. exact E4.
   - exact V4.
@@ -379,11 +425,14 @@ Qed.
 
 (* a save interrupted anywhere never blocks the next one *)
 Corollary save_after_crash cs chunks crc chunks2 crc2 f0 fc : NoDup cs -> crash f0 (save_ops cs chunks crc) fc ->
-  verify_ok (concat chunks2) crc2 = true ->
-  exists f1, exec fc (save_ops cs chunks2 crc2) = Some f1 /\ forall i, In i cs -> f1 (Content i) = Some (concat chunks2) /\ f1 (Tmp i) = None.
+  all_verified cs chunks2 crc2 ->
+  exists f1, exec fc (save_ops cs chunks2 crc2) = Some f1 /\ forall i, In i cs -> f1 (Content i) = Some (landed chunks2 i) /\ f1 (Tmp i) = None.
 Proof.
   intros ND _ V. destruct (save_complete cs chunks2 crc2 fc ND V) as (f1 & E & H & _). exists f1. split; assumption.
 Qed.
+
+Lemma landed_uniform chunks i : landed (uniform chunks) i = concat chunks.
+Proof. unfold landed, uniform. rewrite map_map. rewrite map_id. reflexivity. Qed.
 
 (* ------------------------------------------------------------------------------------------------ *)
 (** * What the writer produces passes the verification *)
@@ -414,11 +463,11 @@ Corollary writer_save_complete cs flushes f0 : NoDup cs -> bytes (concat flushes
     forall i, In i cs -> f1 (Content i) = Some (concat flushes ++ sputble32 (crc32c_spec 0 (concat flushes))) /\ f1 (Tmp i) = None.
 Proof.
   intros ND HB.
-  assert (Ec : concat (writer_chunks flushes) = concat flushes ++ sputble32 (crc32c_spec 0 (concat flushes))).
-  { unfold writer_chunks. rewrite concat_app. cbn [concat]. rewrite app_nil_r. reflexivity. }
+  assert (Ec : forall i, landed (writer_chunks flushes) i = concat flushes ++ sputble32 (crc32c_spec 0 (concat flushes))).
+  { intros i. unfold writer_chunks. rewrite landed_uniform, concat_app. cbn [concat]. rewrite app_nil_r. reflexivity. }
   destruct (save_complete cs (writer_chunks flushes) (writer_crc flushes) f0 ND) as (f1 & E & H & _).
-  { rewrite Ec. apply writer_verifies, HB. }
-  exists f1. split; [exact E|]. intros i Hi. rewrite <- Ec. apply H, Hi.
+  { intros i _. rewrite Ec. apply writer_verifies, HB. }
+  exists f1. split; [exact E|]. intros i Hi. rewrite <- (Ec i). apply H, Hi.
 Qed.
 
 (* ------------------------------------------------------------------------------------------------ *)
@@ -430,14 +479,14 @@ Definition f_demo : fsys := fun q =>
 Example demo_crash_between_renames :
   let flushes := [[83; 78]; [65; 78]] in
   let ops := save_ops [0; 1; 2]%nat (writer_chunks flushes) (writer_crc flushes) in
-  exists f', crash f_demo ops f' /\ f' (Content 0%nat) = Some (concat (writer_chunks flushes)) /\
-             f' (Content 1%nat) = Some [1] /\ f' (Content 2%nat) = Some [1] /\ length ops = 27%nat.
+  exists f', crash f_demo ops f' /\ f' (Content 0%nat) = Some (landed (writer_chunks flushes) 0%nat) /\
+             f' (Content 1%nat) = Some [1] /\ f' (Content 2%nat) = Some [1] /\ length ops = 25%nat.
 Proof.
   cbv zeta.
   set (ops := save_ops [0; 1; 2]%nat (writer_chunks [[83; 78]; [65; 78]]) (writer_crc [[83; 78]; [65; 78]])).
-  destruct (exec f_demo (firstn 25 ops)) as [f'|] eqn:E; [|vm_compute in E; discriminate].
+  destruct (exec f_demo (firstn 23 ops)) as [f'|] eqn:E; [|vm_compute in E; discriminate].
   exists f'. split; [|split; [|split; [|split]]].
-  - replace ops with (firstn 25 ops ++ skipn 25 ops) by apply firstn_skipn.
+  - replace ops with (firstn 23 ops ++ skipn 23 ops) by apply firstn_skipn.
     assert (G : forall l1 l2 f f1, exec f l1 = Some f1 -> crash f (l1 ++ l2) f1).
     { induction l1 as [|o l1 IH]; intros l2 f f1 H; cbn [exec] in H.
       - injection H as <-. constructor.
@@ -447,4 +496,23 @@ Proof.
   - vm_compute in E. injection E as <-. vm_compute. reflexivity.
   - vm_compute in E. injection E as <-. vm_compute. reflexivity.
   - vm_compute. reflexivity.
+Qed.
+
+(* a write fault on the FIRST of two copies (one bit of its first flush inverted on the way to the disk), the last copy is
+   perfect: the hypotheses of verify_all_guard hold with j = 0, so nothing is renamed *)
+Definition fault_flushes : list flush :=
+  [fun i => match i with O => [83; 79] | _ => [83; 78] end; fun _ => [65; 78]; fun _ => sputble32 (crc32c_spec 0 [83; 78; 65; 78])].
+Definition fault_crc : N := crc32c_spec 0 [83; 78; 65; 78].
+
+Example fault_on_first_copy_blocks_every_rename :
+  verify_ok (landed fault_flushes 0%nat) fault_crc = false /\ verify_ok (landed fault_flushes 1%nat) fault_crc = true /\
+  exec f_demo (save_ops [0; 1]%nat fault_flushes fault_crc) = None /\
+  forall f', crash f_demo (save_ops [0; 1]%nat fault_flushes fault_crc) f' -> forall i, f' (Content i) = f_demo (Content i).
+Proof.
+  assert (V0 : verify_ok (landed fault_flushes 0%nat) fault_crc = false) by (vm_compute; reflexivity).
+  split; [exact V0|]. split; [vm_compute; reflexivity|].
+  apply (verify_all_guard [0; 1]%nat fault_flushes fault_crc f_demo 0%nat).
+  - repeat constructor; cbn; intuition discriminate.
+  - left. reflexivity.
+  - exact V0.
 Qed.
